@@ -16,6 +16,8 @@
 import PurlModel.Lemmas.Pieces
 import PurlModel.Lemmas.QualOrder
 import PurlModel.Lemmas.NormPaths
+import PurlModel.Lemmas.PctSpelling
+import PurlModel.Lemmas.Spells
 import PurlModel.Lemmas.RustUnicode
 namespace Purl.C02
 open Purl Purl.Generated
@@ -86,81 +88,141 @@ theorem qualifier_order_irrelevant (w : Pieces) (a b : List (Str × Str × Str))
       parse_any_spelling U _ okb ns name ver sub q hsub db hns hname hver]
   rfl
 
-/-! ### percent-spelling freedom -/
+/-! ### ONE generative statement: every legal spelling of a component tuple parses to `build()` of it
 
-/-- the bytes of a char written as `%XY%XY…`, each hex digit in either case -/
-inductive BytesSp : Bytes → Str → Prop where
-  | nil : BytesSp [] []
-  | cons (b : UInt8) (h l : Char) (bs : Bytes) (w : Str) :
-      hexValChar h = some (b / 16) → hexValChar l = some (b % 16) → BytesSp bs w →
-      BytesSp (b :: bs) ('%' :: h :: l :: w)
+The spelling relations are in Lemmas/Spells.lean: `NsSp` / `SubSp` (pieces between raw '/': each
+segment percent-spelled, empty pieces anywhere, for the subpath also raw "." and ".." pieces),
+`PctSp` (raw or %XY per char, either hex case), `ItemSp` (`Key=value`, key in any letter case).
+Together with `Pieces` (extra slashes after the scheme, type in any case, raw '#', '?', '@' where
+right-to-left splitting tolerates them) they generate the legal spellings of the tuple
+(type, namespace segments, name, version, qualifier content, subpath segments). -/
 
-/-- a component and one of its spellings: every char raw (never '%'), or all its UTF-8 bytes escaped -/
-inductive PctSp : Str → Str → Prop where
-  | nil : PctSp [] []
-  | raw (c : Char) (cs ws : Str) : c ≠ '%' → PctSp cs ws → PctSp (c :: cs) (c :: ws)
-  | pct (c : Char) (w : Str) (cs ws : Str) : BytesSp (String.utf8EncodeChar c) w → PctSp cs ws → PctSp (c :: cs) (w ++ ws)
+/-- ANY SPELLING OF A TUPLE PARSES TO `build()` OF THE TUPLE.  The right-hand side mentions only the
+components (and the type as written, whose letter case `build()` removes): every spelling of the same
+components gives the same result, whatever escapes, hex case, extra slashes, dot pieces, key case,
+item order and empty-valued items it uses. -/
+theorem parse_spells (w : Pieces) (ok : w.Ok) (nsSegs subSegs : List Str) (name ver : Str)
+    (items : List (Str × Str × Str))
+    (hns : match w.ns with
+      | some x => ∃ ps, ps ≠ [] ∧ x = joinWith '/' ps ∧ NsSp nsSegs ps
+      | none => nsSegs = [])
+    (hname : PctSp name w.name)
+    (hver : match w.ver with | some x => PctSp ver x | none => ver = [])
+    (hq : match w.quals with
+      | some x => items ≠ [] ∧ x = joinWith '&' (items.map (·.1)) ∧
+          (∀ it ∈ items, ItemSp it.1 it.2.1 it.2.2) ∧ (items.map (·.2.1)).Nodup
+      | none => items = [])
+    (hsub : match w.sub with
+      | some x => ∃ ps, ps ≠ [] ∧ x = joinWith '/' ps ∧ SubSp subSegs ps
+      | none => subSegs = []) :
+    ∃ q, QInv q ∧ (∀ p, lookup q p = contentLookup items p) ∧
+      parseS U w.assemble = buildS U ⟨w.ty, { ns := joinWith '/' nsSegs, name := name, version := ver,
+                                               quals := q, subpath := joinWith '/' subSegs }⟩ := by
+  -- the qualifier collection determined by the items
+  have hitems : (∀ it ∈ items, ItemOk it.1 it.2.1 it.2.2) ∧ (items.map (·.2.1)).Nodup := by
+    cases hs : w.quals with
+    | none => rw [hs] at hq; simp only at hq; subst hq; exact ⟨by simp, by simp⟩
+    | some x => rw [hs] at hq; exact ⟨fun it h => (hq.2.2.1 it h).ok, hq.2.2.2⟩
+  obtain ⟨q, hq1, hq2, hq3⟩ := qualItems_of_distinct U items [] QInv_nil hitems.1 hitems.2 (fun _ _ => rfl)
+  have hq3' : ∀ p, lookup q p = contentLookup items p := by
+    intro p
+    rw [hq3 p]
+    cases contentLookup items p <;> rfl
+  refine ⟨q, hq2, hq3', ?_⟩
+  apply parse_of_pieces U w ok
+  · -- subpath
+    cases hs : w.sub with
+    | none => rw [hs] at hsub; simp only at hsub; subst hsub; rfl
+    | some x =>
+      rw [hs] at hsub
+      obtain ⟨ps, hne, rfl, hsp⟩ := hsub
+      exact decodeSubpath_spelled hsp hne
+  · -- qualifiers
+    cases hs : w.quals with
+    | none =>
+      rw [hs] at hq
+      simp only at hq
+      subst hq
+      simp only [List.map_nil, qualItems] at hq1
+      cases hq1
+      rfl
+    | some x =>
+      rw [hs] at hq
+      obtain ⟨hne, rfl, hsp, _⟩ := hq
+      show decodeQualifiers U _ [] = .ok q
+      unfold decodeQualifiers
+      rw [splitOn_joinWith (by simpa using hne) (by
+        intro p hp
+        simp only [List.mem_map] at hp
+        obtain ⟨it, hit, rfl⟩ := hp
+        exact (hsp it hit).no_amp)]
+      exact hq1
+  · -- namespace
+    cases hs : w.ns with
+    | none => rw [hs] at hns; simp only at hns; subst hns; rfl
+    | some x =>
+      rw [hs] at hns
+      obtain ⟨ps, hne, rfl, hsp⟩ := hns
+      exact decodeNamespace_spelled hsp hne
+  · exact Purl.pct_spelling_decodes name w.name hname
+  · cases hs : w.ver with
+    | none => rw [hs] at hver; exact hver
+    | some x => rw [hs] at hver; exact Purl.pct_spelling_decodes ver x hver
 
-theorem hexValChar_ascii {c : Char} {v : UInt8} (h : hexValChar c = some v) :
-    c.toNat < 128 ∧ hexVal c.toNat.toUInt8 = some v := by
-  unfold hexValChar at h
-  split at h
-  · rename_i hlt; exact ⟨hlt, h⟩
-  · simp at h
+/-- two spellings of the same components — different escapes, slashes, dot pieces, key case, item
+order, empty-valued items, type case — parse to the same result -/
+theorem spellings_of_one_tuple_agree (w₁ w₂ : Pieces) (ok₁ : w₁.Ok) (ok₂ : w₂.Ok) (hty : asciiLower w₁.ty = asciiLower w₂.ty)
+    (nsSegs subSegs : List Str) (name ver : Str) (items₁ items₂ : List (Str × Str × Str))
+    (hcontent : ∀ p, contentLookup items₁ p = contentLookup items₂ p)
+    (hns₁ : match w₁.ns with | some x => ∃ ps, ps ≠ [] ∧ x = joinWith '/' ps ∧ NsSp nsSegs ps | none => nsSegs = [])
+    (hns₂ : match w₂.ns with | some x => ∃ ps, ps ≠ [] ∧ x = joinWith '/' ps ∧ NsSp nsSegs ps | none => nsSegs = [])
+    (hname₁ : PctSp name w₁.name) (hname₂ : PctSp name w₂.name)
+    (hver₁ : match w₁.ver with | some x => PctSp ver x | none => ver = [])
+    (hver₂ : match w₂.ver with | some x => PctSp ver x | none => ver = [])
+    (hq₁ : match w₁.quals with
+      | some x => items₁ ≠ [] ∧ x = joinWith '&' (items₁.map (·.1)) ∧
+          (∀ it ∈ items₁, ItemSp it.1 it.2.1 it.2.2) ∧ (items₁.map (·.2.1)).Nodup
+      | none => items₁ = [])
+    (hq₂ : match w₂.quals with
+      | some x => items₂ ≠ [] ∧ x = joinWith '&' (items₂.map (·.1)) ∧
+          (∀ it ∈ items₂, ItemSp it.1 it.2.1 it.2.2) ∧ (items₂.map (·.2.1)).Nodup
+      | none => items₂ = [])
+    (hsub₁ : match w₁.sub with | some x => ∃ ps, ps ≠ [] ∧ x = joinWith '/' ps ∧ SubSp subSegs ps | none => subSegs = [])
+    (hsub₂ : match w₂.sub with | some x => ∃ ps, ps ≠ [] ∧ x = joinWith '/' ps ∧ SubSp subSegs ps | none => subSegs = []) :
+    parseS U w₁.assemble = parseS U w₂.assemble := by
+  obtain ⟨q₁, i₁, l₁, e₁⟩ := parse_spells U w₁ ok₁ nsSegs subSegs name ver items₁ hns₁ hname₁ hver₁ hq₁ hsub₁
+  obtain ⟨q₂, i₂, l₂, e₂⟩ := parse_spells U w₂ ok₂ nsSegs subSegs name ver items₂ hns₂ hname₂ hver₂ hq₂ hsub₂
+  have : q₁ = q₂ := QInv.ext i₁.1 i₂.1 (fun p => by rw [l₁ p, l₂ p, hcontent p])
+  subst this
+  rw [e₁, e₂]
+  unfold buildS buildWith
+  simp only [stringShape, strPreviewMut, ok₁.ty_valid, ok₂.ty_valid, Bool.not_true, Bool.false_eq_true, if_false, hty]
 
-theorem pctDecode_raw_bytes (bs rest : Bytes) (h : ∀ b ∈ bs, b ≠ 0x25) : pctDecode (bs ++ rest) = bs ++ pctDecode rest := by
-  induction bs with
-  | nil => rfl
-  | cons b more ih =>
-    simp only [List.cons_append]
-    rw [pctDecode_cons_ne _ (h b (by simp)), ih (fun x hx => h x (by simp [hx]))]
+/-! non-vacuity: `pkg:t/a//b/%6E@1?K=v#./x` spells (t, [a, b], n, 1, {k ↦ v}, [x]) -/
+def wExample : Pieces :=
+  ⟨0, ['t'], some ['a', '/', '/', 'b'], ['%', '6', 'E'], some ['1'], some ['K', '=', 'v'], some ['.', '/', 'x']⟩
 
-theorem raw_char_bytes_ne_pct {c : Char} (hc : c ≠ '%') : ∀ b ∈ String.utf8EncodeChar c, b ≠ 0x25 := by
-  intro b hb e
-  subst e
-  have := utf8EncodeChar_ascii_byte hb (by decide)
-  apply hc
-  apply Char.toNat_inj
-  have h2 : c.toNat.toUInt8 = 37 := this.2.symm
-  have : c.toNat.toUInt8.toNat = c.toNat := by
-    simp [Nat.toUInt8, Nat.mod_eq_of_lt (by omega : c.toNat < 256)]
-  rw [h2] at this
-  simpa using this.symm
+theorem pctSp_raw1 (c : Char) (h : c ≠ '%') : PctSp [c] [c] := PctSp.raw c [] [] h PctSp.nil
 
-theorem div_mod_16 : ∀ b : UInt8, (b / 16) * 16 + b % 16 = b := by
-  apply UInt8.forall_of_nat
-  decide +kernel
+example : wExample.Ok := by
+  refine ⟨by decide, ?_, ?_, ?_, by decide⟩ <;> simp [wExample]
+example : NsSp [['a'], ['b']] [['a'], [], ['b']] :=
+  .seg _ _ _ _ (by decide) (by decide) (pctSp_raw1 'a' (by decide))
+    (.empty _ _ (.seg _ _ _ _ (by decide) (by decide) (pctSp_raw1 'b' (by decide)) .nil))
+example : ['a', '/', '/', 'b'] = joinWith '/' [['a'], [], ['b']] := by decide
+example : PctSp ['n'] ['%', '6', 'E'] :=
+  PctSp.pct 'n' ['%', '6', 'E'] [] [] (BytesSp.cons 0x6E '6' 'E' [] [] (by decide) (by decide) BytesSp.nil) PctSp.nil
+example : ItemSp ['K', '=', 'v'] ['k'] ['v'] :=
+  ⟨['K'], ['v'], rfl, by decide, by decide, pctSp_raw1 'v' (by decide), by decide⟩
+example : SubSp [['x']] [['.'], ['x']] :=
+  .skip _ _ _ (by decide) (.seg _ _ _ _ (by decide) (by decide) (by decide) (by decide) (pctSp_raw1 'x' (by decide)) .nil)
 
-theorem bytesSp_decode (bs : Bytes) (w : Str) (h : BytesSp bs w) (rest : Bytes) :
-    pctDecode (utf8 w ++ rest) = bs ++ pctDecode rest := by
-  induction h with
-  | nil => rfl
-  | cons b hc lc bs' w' hh hl _ ih =>
-    obtain ⟨ha, hv⟩ := hexValChar_ascii hh
-    obtain ⟨la, lv⟩ := hexValChar_ascii hl
-    rw [utf8_cons, utf8_cons, utf8_cons, utf8EncodeChar_ascii ha, utf8EncodeChar_ascii la,
-      utf8EncodeChar_ascii (by decide : ('%' : Char).toNat < 128)]
-    simp only [List.cons_append, List.nil_append]
-    have : ('%' : Char).toNat.toUInt8 = 0x25 := by decide
-    rw [this, pctDecode_pct _ hv lv, div_mod_16, ih]
+/-! ### percent-spelling freedom (relations `BytesSp`, `PctSp` in Lemmas/PctSpelling.lean) -/
 
 /-- every percent-spelling of a component decodes to the component: raw chars (incl. raw UTF-8) and
 escapes with either hex case, in any mixture -/
-theorem pct_spelling_decodes (s w : Str) (h : PctSp s w) : decode w = .ok s := by
-  apply decode_of_bytes
-  have key : ∀ rest, pctDecode (utf8 w ++ rest) = utf8 s ++ pctDecode rest := by
-    induction h with
-    | nil => intro rest; rfl
-    | raw c cs ws hc _ ih =>
-      intro rest
-      rw [utf8_cons, utf8_cons, List.append_assoc, pctDecode_raw_bytes _ _ (raw_char_bytes_ne_pct hc), ih]
-      simp
-    | pct c w' cs ws hb _ ih =>
-      intro rest
-      rw [utf8_append, utf8_cons, List.append_assoc, bytesSp_decode _ _ hb, ih]
-      simp
-  have := key []
-  simpa [pctDecode_nil] using this
+theorem pct_spelling_decodes (s w : Str) (h : PctSp s w) : decode w = .ok s :=
+  Purl.pct_spelling_decodes s w h
 
 /-! ### extra slashes, raw dot segments -/
 
